@@ -233,7 +233,7 @@ package fs
 //@   modifies c.parentDirs, c.parentDirs[*], c.inodes[*], array byte, global bufferPool
 //@   effects *
 //@   ensures stack: len(c.parentDirs) == old(len(c.parentDirs)) && (ref(c.parentDirs) == old(ref(c.parentDirs)) || fresh(c.parentDirs))
-//@   at call copier.removeTargetIfNeeded: lstat_only: cnt(Lstat) == old(cnt(Lstat)) + 2 && include
+//@   at call copier.removeTargetIfNeeded: selected: include
 //@   at call copier.removeTargetIfNeeded: parents_checked_before_replace: forall k int :: 0 <= k && k < len(c.parentDirs) ==> c.parentDirs[k].copied
 //@   at call copier.createParentDirs: lstat_only: cnt(Stat) == old(cnt(Stat)) && cnt(Lstat) == old(cnt(Lstat)) + 2
 //@   at call copier.include: not_for_root: srcComponents != ""
